@@ -105,7 +105,7 @@ fn default_mode() -> u32 {
 
 impl Node {
     pub fn to_json(&self) -> Value {
-        json!({"p": self.p, "k": self.k, "c": abstract_content(&self.c), "t": self.t, "mt": [crate::decode::clamp_i32(self.mt.0), self.mt.1],
+        json!({"p": self.p, "k": self.k, "c": abstract_content(&self.c), "t": self.t, "mt": crate::decode::mt_json(self.mt.0, self.mt.1),
                "mode": self.mode, "u": self.u, "g": self.g})
     }
     pub fn rel_path(&self) -> PathBuf {
@@ -219,6 +219,13 @@ pub fn materialize(root: &Path, nodes: &[Node]) -> io::Result<()> {
                 }
             }
             "Symlink" => std::os::unix::fs::symlink(OsStr::from_bytes(&n.t), &path)?,
+            // something a backup cannot store and passes over: a named pipe
+            "Fifo" => {
+                let ok = std::process::Command::new("mkfifo").arg(&path).status().map(|s| s.success()).unwrap_or(false);
+                if !ok {
+                    return Err(io::Error::new(io::ErrorKind::Other, "mkfifo failed"));
+                }
+            }
             other => {
                 return Err(io::Error::new(io::ErrorKind::InvalidInput, format!("kind {other}")));
             }
@@ -288,6 +295,12 @@ pub fn project(root: &Path) -> io::Result<Vec<Node>> {
     // make sure we can read everything even with odd modes: we run as root in this sandbox
     project_into(root, &mut Vec::new(), root, &mut out)?;
     Ok(out)
+}
+
+/// The projection of a SOURCE tree: what a backup is to store. Special files (pipes, sockets,
+/// devices) are not part of it; conserve passes over them.
+pub fn project_source(root: &Path) -> io::Result<Vec<Node>> {
+    Ok(project(root)?.into_iter().filter(|n| n.k != "Other").collect())
 }
 
 /// A cheap digest of a projected tree, for "did anything outside change" comparisons.
